@@ -759,7 +759,7 @@ def deserialize_structure_internal(
     if issubclass(cls, Versioned):
         if not isinstance(the_dict, dict) or "version" not in the_dict:
             raise TypeError("Expected a dictionary with a 'version' value")
-        if getattr(cls, VERSIONS_MAPPING):
+        if getattr(cls, VERSIONS_MAPPING, None):
             versions_mapping = getattr(cls, VERSIONS_MAPPING)
             input_dict = convert_dict(the_dict, versions_mapping)
 
